@@ -113,6 +113,36 @@ def original_chain(suffix, content):
     return env["adapter"]
 
 
+NEUTRAL = [("docker-compose.yml", "version: \"3\"\nservices:\n  db:\n    image: postgres\n"), ("ci.yaml", "jobs:\n  build:\n    steps: []\n"),
+           ("settings.json", "{\"editor\": {\"tabSize\": 2}}"), ("analytics.json", "{\"analytics\": {\"metrics\": [], \"visualizationObjects\": []}}"),
+           ("README.md", "# models\n"), ("notes.txt", "measures: none\n"), ("empty.yml", "{}\n")]
+
+
+def load_in_order(root, perm_rng):
+    """load_from_directory(root) with the directory enumerated in a given order (None = the file system's)"""
+    from pathlib import Path
+
+    from sidemantic import SemanticLayer
+    from sidemantic.loaders import load_from_directory
+    orig = Path.rglob
+
+    def ordered(self, pattern, **kw):
+        items = sorted(orig(self, pattern, **kw))
+        perm_rng.shuffle(items)
+        return iter(items)
+    if perm_rng is not None:
+        Path.rglob = ordered
+    try:
+        layer = SemanticLayer(auto_register=False)
+        try:
+            load_from_directory(layer, root)
+            return {m: getattr(layer.graph.models[m], "_source_format", None) for m in layer.graph.models}
+        except Exception as e:  # noqa: BLE001
+            return {"<error>": type(e).__name__ + ": " + str(e)[:160]}
+    finally:
+        Path.rglob = orig
+
+
 def run(ck: Check):
     try:
         tr, _ = tdetect.translate()
@@ -143,7 +173,7 @@ def run(ck: Check):
     # (K) exporters: signature + directory loading
     from sidemantic import SemanticLayer
     from sidemantic.loaders import load_from_directory
-    n_dirs = 60 if thorough else 10
+    n_dirs = (60 if thorough else 10) * (3 if ck.broken else 1)      # directed search after a broken translation / proof
     samples = []
     for di in range(n_dirs):
         root = tempfile.mkdtemp(prefix="c13_", dir=os.environ.get("TMPDIR", "/tmp"))
@@ -183,13 +213,29 @@ def run(ck: Check):
                     expected[mname] = fmt
                     if not g.models[mname].metrics if mname in g.models else False:
                         metricless_models.add(mname)
-            layer = SemanticLayer(auto_register=False)
-            try:
-                load_from_directory(layer, root)
-                got = {m: getattr(layer.graph.models[m], "_source_format", None) for m in layer.graph.models}
-            except Exception as e:
-                got = {"<error>": repr(e)[:200]}
+            # files no detection branch recognises, anywhere in the tree: they must contribute nothing
+            neutral = []
+            for nm, content in rng.sample(NEUTRAL, rng.choice([0, 1, 2, 4])):
+                sub = os.path.join(root, *[rng.choice(["a", "b", "nested", "x", "0_Omni", "zz"]) for _ in range(rng.choice([0, 1, 2]))])
+                os.makedirs(sub, exist_ok=True)
+                if not os.path.exists(os.path.join(sub, nm)):
+                    open(os.path.join(sub, nm), "w").write(content)
+                    neutral.append(os.path.relpath(os.path.join(sub, nm), root))
+            got = load_in_order(root, None)
             key = "F12-probe-in-text" if hostile else None
+            import random as _random
+            for oi in range(3):
+                perm_seed = rng.randrange(1 << 30)
+                got2 = load_in_order(root, _random.Random(perm_seed))
+                stats["enumeration_orders"] += 1
+                if got2 != got:
+                    ck.fail_input(f"the same directory loads differently when its files are enumerated in another order: {dict(sorted(set(got.items()) ^ set(got2.items())))}",
+                                  {"formats": formats, "neutral_files": neutral, "order_seed": perm_seed, "loaded_fs_order": got, "loaded_other_order": got2, "expected": expected}, finding_key=key)
+                    break
+            extra = sorted(set(got) - set(expected))
+            if extra:
+                ck.fail_input(f"load_from_directory yields {extra}, which no file's own adapter extracts (unrecognised files next to the exports: {neutral})",
+                              {"formats": formats, "neutral_files": neutral, "expected": expected, "loaded": got}, finding_key=key)
             for mname, fmt in expected.items():
                 stats["models_expected"] += 1
                 if got.get(mname) != fmt:
@@ -248,9 +294,41 @@ def run(ck: Check):
         ck.notes.append(f"SML short-circuit probe could not run: {e!r}")
     finally:
         shutil.rmtree(root, ignore_errors=True)
+    # an SML repository alone, at the root and nested one or two levels down, with and without a catalog file: every model its
+    # own adapter extracts must be loaded
+    from sidemantic.adapters.atscale_sml import AtScaleSMLAdapter
+    for depth in (0, 1, 2):
+        for drop_catalog in (False, True):
+            root = tempfile.mkdtemp(prefix="c13_", dir=os.environ.get("TMPDIR", "/tmp"))
+            try:
+                g = gen_graph(rng, f"sml{depth}")
+                for m in g.models.values():       # COUNT(*) measures do not survive this exporter (C12 finding): keep to what its adapter extracts as valid models
+                    m.metrics = [x for x in m.metrics if x.agg != "count"]
+                target = os.path.join(root, *["atscale", "repo"][:depth])
+                os.makedirs(target, exist_ok=True)
+                AtScaleSMLAdapter().export(g, target)
+                if drop_catalog:
+                    for nm in ("catalog.yml", "catalog.yaml", "atscale.yml", "atscale.yaml"):
+                        if os.path.exists(os.path.join(target, nm)):
+                            os.remove(os.path.join(target, nm))
+                own = AtScaleSMLAdapter().parse(target)
+                from sidemantic.validation import validate_model
+                if any(validate_model(m) for m in own.models.values()):
+                    stats["sml_layout_invalid_models"] += 1      # outside the property: the adapter's models do not pass validation
+                    continue
+                got = load_in_order(root, None)
+                stats["sml_layouts"] += 1
+                missing = sorted(m for m in own.models if m not in got)
+                if missing:
+                    ck.fail_input(f"an SML repository {depth} level(s) below the loaded directory ({'no ' if drop_catalog else ''}catalog file): models {missing} are not loaded",
+                                  {"depth": depth, "catalog": not drop_catalog, "own_models": sorted(own.models), "loaded": got})
+            except Exception as e:  # noqa: BLE001
+                ck.notes.append(f"SML layout probe (depth {depth}) could not run: {e!r}")
+            finally:
+                shutil.rmtree(root, ignore_errors=True)
     ck.coverage.update({
         "evaluations": (len(cases) if tr else 0) + stats["models_expected"], "distinct_nontrivial": sum(1 for k in stats if k.startswith("exported:")),
-        "rule": "synthetic contents over every probe string of the cascade x suffixes (original chain executed vs Lean); directories of 1-8 formats from the 15 exporters with disjoint model names, nested 0-2 levels; signature check of every exported YAML file; 15% of directories with probe strings inside descriptions (known finding F12)",
+        "rule": "synthetic contents over every probe string of the cascade x suffixes (original chain executed vs Lean); directories of 1-8 formats from the 15 exporters with disjoint model names, nested 0-2 levels, plus 0-4 files no detection branch recognises (compose/CI YAML, JSON, text), each loaded in the file system's and 3 random enumeration orders (Path.rglob permuted) and compared for equality and for models nobody's adapter extracts; signature check of every exported YAML file; 15% of directories with probe strings inside descriptions (known finding F12); AtScale SML repositories at the root and nested 1-2 levels, with and without catalog file",
         "stats": dict(stats), "traces_validated_against_impl": (len(cases) if tr else 0), "samples": samples or [{"note": "none"}],
     })
     ck.assumptions += ["a format's signature (hypotheses of its theorem) is validated on generated exporter output, not proved about the exporters",
